@@ -86,3 +86,28 @@ def const_kinds(t, acc=None):
 
 def text_of(t):
     return binascii.unhexlify(t[1]).decode("utf-8", "surrogatepass")
+
+
+def is_nan_bits(hexbits):
+    v = int(hexbits, 16)
+    return (v >> 52) & 0x7FF == 0x7FF and (v & ((1 << 52) - 1)) != 0
+
+
+def normalize_nan(t):
+    """Text-float encodings cannot carry a NaN's sign/payload: make every NaN the same."""
+    k = kind(t)
+    if k == "f":
+        return ["f", "nan"] if is_nan_bits(t[1]) else t
+    if k == "c":
+        return ["c", "nan" if is_nan_bits(t[1]) else t[1], "nan" if is_nan_bits(t[2]) else t[2]]
+    if k in ("T", "L", "S", "Z"):
+        items = [normalize_nan(x) for x in t[1]]
+        if k in ("S", "Z"):
+            items = sorted(items, key=lambda c: json.dumps(c, sort_keys=True))
+        return [k, items]
+    if k == "D":
+        return [k, sorted([[normalize_nan(a), normalize_nan(b)] for a, b in t[1]],
+                          key=lambda c: json.dumps(c, sort_keys=True))]
+    if k == "C":
+        return ["C", dict((f, normalize_nan(x)) for f, x in t[1].items())]
+    return t
